@@ -1528,3 +1528,5 @@ RULE += (' Added: tables - RenderLaTeX(select_data=user selector, from_data on/o
          'partial one) interleaved with unselected values, three runs (same, same, one table '
          'changed): own name, own content, changed flag, distinct context.output objects.')
 RULE += (' Added: Write of text with non-ASCII characters over an existing file (same relations).')
+
+RULE += (' Round 10: 34 and 40 plots in one flow (thorough: up to 70).')
